@@ -7,6 +7,7 @@ import Proofs.DateLaw2
 import Proofs.SplitJoin
 import Proofs.LineShape
 import Proofs.Renders
+import Proofs.FloatLaw
 /-!
 C01 — property theorems.
 
@@ -458,6 +459,56 @@ theorem readLaw_flt (f : Field) (x : Dbl) (dec : Nat) (fmt : Char) (sep : List C
   refine ⟨r, hr, ?_⟩
   simp only [canon, Val.isNull, hn, Bool.false_eq_true, if_false, hk, parseText]
   cases Dbl.pyFloat (replace r sep ['.']) <;> rfl
+
+/-- **Floats in F notation, full law**: for every finite double and every F-notation
+float field (any width, any number of decimals up to 323, any admitted one-character
+separator) in which the rendering with the declared number of decimals fits, the text
+written is `size` wide, reads back as `round(x, decimals)` — which is the canonical form
+"the double nearest to the decimal emitted" — and writing the value read back gives the
+same text (stability). Rests on `Proofs.Nearest.round_fixed` (a double at least as close
+to `n/10^d` as `x` rounds to the same `n`) and `Proofs.FloatText.float_fmtF_round`. -/
+theorem law_flt_F (f : Field) (dec : Nat) (fmt c : Char) (hk : f.kind = .flt dec fmt [c])
+    (hfmt : fmt = 'F' ∨ fmt = 'f') (hsep : sepOk [c] = true) (hgeo : f.stop = f.size + f.start)
+    (neg : Bool) (m : Nat) (e : Int) (hwf : Proofs.FloatText.wf m e) (hdec : dec ≤ 323) (r : Dbl)
+    (hr : Dbl.pyRound (.fin neg m e) dec = some r) (hfit : (Dbl.fmtF r dec (fmt == 'F')).length ≤ f.size) :
+    RenderLaw f (.dbl (.fin neg m e)) := by
+  have hc : c ≠ ' ' ∧ c.isDigit = false ∧ c ≠ '-' := by
+    simp only [sepOk, Bool.not_eq_true', Bool.or_eq_false_iff] at hsep
+    obtain ⟨⟨⟨⟨⟨⟨⟨⟨⟨⟨⟨⟨⟨⟨h1, h2⟩, _⟩, _⟩, _⟩, h5⟩, _⟩, _⟩, _⟩, _⟩, _⟩, _⟩, _⟩, _⟩, _⟩ := hsep
+    refine ⟨?_, ?_, ?_⟩
+    · intro e; subst e; revert h5; decide
+    · cases hd : c.isDigit with
+      | false => rfl
+      | true =>
+        have := (Cfi.isDigit_iff c).1 hd
+        have : isAsciiDigit c = true := by
+          simp only [isAsciiDigit, Bool.and_eq_true, decide_eq_true_eq]
+          constructor
+          · show '0'.toNat ≤ c.toNat; simp; omega
+          · show c.toNat ≤ '9'.toNat; simp; omega
+        rw [this] at h1; exact absurd h1 (by simp)
+    · intro e; subst e; simp at h2
+  obtain ⟨t, h1, h2, h3, h4, _⟩ := Proofs.FloatLaw.fltF_core f dec fmt c hk hfmt hc.1 hc.2.1 hc.2.2 neg m e hwf hdec r hr hfit
+  have hpf : Dbl.pyFloat (replace t [c] ['.']) = some r := by
+    rw [hk] at h3
+    simp only [parseText] at h3
+    cases hp : Dbl.pyFloat (replace t [c] ['.']) with
+    | none => rw [hp] at h3; simp at h3
+    | some d => rw [hp] at h3; simp at h3; rw [h3]
+  have hcan : canon f (.dbl (.fin neg m e)) t = .dbl r := by
+    simp only [canon, Val.isNull, Dbl.isNaN, Bool.false_eq_true, if_false, hk, hpf]
+  refine ⟨t, ⟨h1, h2, hgeo⟩, ?_, ?_⟩
+  · rw [h3, hcan]; rfl
+  · rw [hcan]; exact h4
+
+/-- non-vacuity of `law_flt_F`: 1.5 in an 8-wide field with two decimals and a decimal comma
+meets every premise, and the text is the expected one -/
+example :
+    Proofs.FloatText.wf (2 ^ 52 + 2 ^ 51) (-52) ∧ sepOk [','] = true ∧
+    Dbl.pyRound (.fin false (2 ^ 52 + 2 ^ 51) (-52)) 2 = some (.fin false (2 ^ 52 + 2 ^ 51) (-52)) ∧
+    (Dbl.fmtF (.fin false (2 ^ 52 + 2 ^ 51) (-52)) 2 true).length ≤ 8 ∧
+    renderText (Field.mk' (.flt 2 'F' [',']) 8 3) (.dbl (.fin false (2 ^ 52 + 2 ^ 51) (-52))) = .ok "    1,50".toList := by
+  refine ⟨⟨by decide, by decide, by decide⟩, by decide, by decide +kernel, by decide +kernel, by decide +kernel⟩
 
 /-- **The full law (read-back and stability) from the decidable domain guard**, for
 every admitted value except non-missing floats: integers, canonical literals,
